@@ -45,6 +45,7 @@ PROPS = {
         streams=[
             S("frame", ["--cases", 3000], ["--cases", 150000]),
             S("chunks", ["--cases", 250, "--cutlen", 200], ["--cases", 8000, "--cutlen", 400]),
+            S("simraw", ["--cases", 100], ["--cases", 5000]),
         ],
     ),
     "C08": dict(
@@ -62,6 +63,8 @@ PROPS = {
             S("procmsg", ["--cases", 200], ["--cases", 20000], profile="checked"),
             S("node", ["--cases", 80], ["--cases", 5000, "--ops", 150], profile="checked"),
             S("nodebig", ["--cases", 8], ["--cases", 200], profile="checked"),
+            S("simraw", ["--cases", 100], ["--cases", 5000]),
+            S("simraw", ["--cases", 100], ["--cases", 5000], profile="checked"),
         ],
     ),
     "C09": dict(
@@ -197,6 +200,8 @@ PROPS = {
             S("procmsg", ["--cases", 300], ["--cases", 30000]),
             # the glue of lib.rs: a message with a wantlist and blocks / presences has both halves applied
             S("node", ["--cases", 80], ["--cases", 4000, "--ops", 120]),
+            # a raw peer writes good and bad frames on several streams of one connection of a real swarm
+            S("simraw", ["--cases", 150], ["--cases", 10000]),
         ],
     ),
     "C18": dict(
